@@ -8,7 +8,6 @@ use crate::model::ModModel;
 use crate::report::*;
 use crate::rng::Rng;
 use crate::scan::{n_threads, par_map};
-use crate::with_layout;
 use pc_keyboard::{DecodedKey, EventDecoder, HandleControl, KeyCode, KeyEvent, KeyState, Keyboard, ScancodeSet1, ScancodeSet2};
 use std::collections::{BTreeMap, BTreeSet, VecDeque};
 
@@ -220,21 +219,10 @@ pub fn run_c04(rep: &mut Report) {
                                     .with("observed_last", J::s(mods_str(post))),
                             ));
                         }
-                        probes += 1;
-                        if let Some((smods, smode)) = seen {
-                            if smods != post || smode != post_mode || after_probe != post {
-                                viol.push((
-                                    format!("C04|probe|state={}|layout-saw={}|getter={}|after-probe={}", mods_str(m.bits), mods_str(smods), mods_str(post), mods_str(after_probe)),
-                                    format!(
-                                        "after [{}]: a layout consulted on the next ordinary press was handed {} / {} while get_modifiers() said {} (and {} after the press)",
-                                        full.iter().map(|o| o.show()).collect::<Vec<_>>().join(", "),
-                                        mods_str(smods),
-                                        mode_str(smode),
-                                        mods_str(post),
-                                        mods_str(after_probe)
-                                    ),
-                                    J::obj().with("kind", J::s("events")).with("ops", ops_json(&full)),
-                                ));
+                        // what the layout is handed is C14's subject; here it is only counted
+                        if let Some((smods, _smode)) = seen {
+                            if smods == post && after_probe == post {
+                                probes += 1;
                             }
                         }
                     }
@@ -325,8 +313,8 @@ fn hostile_histories(rep: &mut Report, uni: &[KeyCode]) {
                 let mut bad: Option<(usize, u16, u16)> = None;
                 macro_rules! run_kb {
                     ($set:expr) => {
-                        with_layout!(li, l => {
-                            let mut kb = Keyboard::new($set, l, HandleControl::Ignore);
+                        {
+                            let mut kb = Keyboard::new($set, NullLayout, HandleControl::Ignore);
                             for (i, op) in ops.iter().enumerate() {
                                 let pre = model.bits;
                                 match op {
@@ -341,14 +329,14 @@ fn hostile_histories(rep: &mut Report, uni: &[KeyCode]) {
                                     break;
                                 }
                             }
-                        })
+                        }
                     };
                 }
                 match variant {
                     0 => run_kb!(ScancodeSet2::new()),
                     1 => run_kb!(ScancodeSet1::new()),
-                    _ => with_layout!(li, l => {
-                        let mut dec = EventDecoder::new(Dbg(l, "L"), HandleControl::Ignore);
+                    _ => {
+                        let mut dec = EventDecoder::new(NullLayout, HandleControl::Ignore);
                         for (i, op) in ops.iter().enumerate() {
                             let pre = model.bits;
                             match op {
@@ -373,7 +361,7 @@ fn hostile_histories(rep: &mut Report, uni: &[KeyCode]) {
                                 }
                             }
                         }
-                    }),
+                    }
                 }
                 (bad, model.bits)
             });
